@@ -6,6 +6,7 @@ spec forms:
   ["fn",name] callable (builtin / lambda / plain function)     ["g"] generator object
   ["l",[..]] ["st",[..]] ["t",[..]] ["d",[[k,v]..]] ["dd",[[k,v]..]]
   ["tw",kind,id]  tripwire object (C03; see tripwires.py)
+  ["sh",n,spec]   the session's n-th shared object (built once from spec, then the same object every time)
 """
 import collections
 
@@ -25,8 +26,15 @@ def _empty_gen():
     yield  # pragma: no cover
 
 
-def build(spec, classes, tw=None):
+def build(spec, classes, tw=None, shared=None):
     t = spec[0]
+    if t == "sh":
+        # one object per session, passed to several calls (and possibly mutated in place between / during them)
+        if shared is None:
+            return build(spec[2], classes, tw)
+        if spec[1] not in shared:
+            shared[spec[1]] = build(spec[2], classes, tw, shared)
+        return shared[spec[1]]
     if t == "i":
         return spec[1]
     if t == "s":
@@ -48,17 +56,17 @@ def build(spec, classes, tw=None):
     if t == "g":
         return _empty_gen()
     if t == "l":
-        return [build(e, classes, tw) for e in spec[1]]
+        return [build(e, classes, tw, shared) for e in spec[1]]
     if t == "st":
-        return {build(e, classes, tw) for e in spec[1]}
+        return {build(e, classes, tw, shared) for e in spec[1]}
     if t == "t":
-        return tuple(build(e, classes, tw) for e in spec[1])
+        return tuple(build(e, classes, tw, shared) for e in spec[1])
     if t == "d":
-        return {build(k, classes, tw): build(v, classes, tw) for k, v in spec[1]}
+        return {build(k, classes, tw, shared): build(v, classes, tw, shared) for k, v in spec[1]}
     if t == "dd":
         d = collections.defaultdict(list)
         for k, v in spec[1]:
-            d[build(k, classes, tw)] = build(v, classes, tw)
+            d[build(k, classes, tw, shared)] = build(v, classes, tw, shared)
         return d
     if t == "tw":
         return tw(spec)
@@ -155,6 +163,17 @@ def gen_value(rng, kn, classes, depth=None):
     if c == "d":
         return ["d", gen_dict_items(rng, kn, classes, depth)]
     return ["dd", [[gen_hashable(rng, kn, classes, 0), gen_value(rng, kn, classes, depth - 1)] for _ in range(rng.choice([0, 1, 2]))]]
+
+
+def gen_big_container(rng):
+    """A large homogeneous container (16..40 items): the kind of value an identity-keyed cache would remember."""
+    n = rng.randint(16, 40)
+    kind = rng.choice(["l", "l", "d", "st"])
+    if kind == "l":
+        return ["l", [["i", i % 5] for i in range(n)]]
+    if kind == "d":
+        return ["d", [[["s", "key%d" % i], ["i", i]] for i in range(n)]]
+    return ["st", [["i", i] for i in range(n)]]
 
 
 BURST_FAMILIES = ["tuples", "atoms", "dicts", "lists", "mixed", "dictlists"]
